@@ -42,13 +42,31 @@ Theorem C39_deletes_only_flagged : forall l del objs rs,
 Proof. exact deletes_only_flagged_stmt. Qed.
 Print Assumptions C39_deletes_only_flagged.
 
-(* ValidateAll runs on the storage the server builds *)
-Definition C39_validate_all_runs_full : Prop := forall del objs, validate_all current_layout del objs <> None.
+(* ValidateAll runs on the storage the server builds (field layout of metadataPartStorage since /repo
+   df6e7b9) and its verdict for every object is validateObject's; deleted = reported and delete mode *)
+Theorem C39_validate_all_runs : forall del objs,
+  validate_all current_layout del objs =
+  Some (map (fun o => (validate_object o, negb (validate_object o) && del)) objs).
+Proof. exact validate_all_runs_stmt. Qed.
+Print Assumptions C39_validate_all_runs.
 
-(* refuted: on the current field layout of metadataPartStorage the reflective search finds nothing *)
-Theorem C39_validate_all_runs_full_refuted : ~ C39_validate_all_runs_full.
-Proof. intros H. exact (H false [] (validate_all_fails_on_current_layout false [])). Qed.
-Print Assumptions C39_validate_all_runs_full_refuted.
+(* regression statement: with the former layout (no field recognised) ValidateAll failed on every input *)
+Theorem C39_validate_all_failed_before_fix : forall del objs, validate_all (L false []) del objs = None.
+Proof. exact validate_all_failed_before_fix. Qed.
+Print Assumptions C39_validate_all_failed_before_fix.
+
+(* ValidateAll reports exactly the corrupted objects among those the partial theorem covers, and in
+   delete mode deletes exactly those *)
+Theorem C39_validate_all_exact : forall del objs rs,
+  Forall (fun o => recorded_by_put o \/ (recorded_by_multipart o /\ length (parts o) <> 1%nat)) objs ->
+  validate_all current_layout del objs = Some rs ->
+  length rs = length objs /\
+  forall i, (i < length objs)%nat ->
+    let o := nth i objs {| oetag := Multi []; parts := [] |} in
+    (fst (nth i rs (true, false)) = false <-> corrupted o) /\
+    (snd (nth i rs (true, false)) = true <-> corrupted o /\ del = true).
+Proof. exact validate_all_exact_stmt. Qed.
+Print Assumptions C39_validate_all_exact.
 
 (* findPartStore succeeds exactly when a part store is a direct field or reachable through Storage fields *)
 Theorem C39_find_part_store_spec : forall d inner,
